@@ -102,7 +102,10 @@ class TLSEngine:
 
     @property
     def client_cert_received(self) -> bool:
-        return bool(self.obj.getpeercert())
+        try:
+            return bool(self.obj.getpeercert())
+        except ValueError:  # the SSL object is in an error state (e.g. the stream could not be decrypted)
+            return False
 
     def step(self) -> None:
         if self.error is not None:
